@@ -8,17 +8,7 @@ package list
 //
 //@ func iface recordverifier.AcceptorVerifier.ShouldValidate
 //@   pure
-//@ func iface crypto.KeyStorage.PubKeyFromProto
-//@   pure
-//@   ensures result1 == nil ==> result0 != nil
-//@ func iface crypto.PubKey.Equals
-//@   pure
-//@ func iface crypto.PubKey.Raw
-//@   pure
-//@ func iface crypto.PubKey.Verify
-//@   pure
-//@ func iface crypto.PubKey.Storage
-//@   pure
+// (crypto.PubKey / KeyStorage leaves: /verif/catalog/crypto.gospec)
 //@ func mapKeyFromPubKey
 //@   pure
 //@   trusted
